@@ -17,7 +17,7 @@ CHECK = {
     # watchdogs are sized for a machine shared with other checks (calibrated CPU time, all shards together:
     # quick ~35 s; thorough ~250 s bounded-exhaustive + ~550 s random, i.e. < 1 min per shard on an idle
     # 16-core machine)
-    "quick": {"shards": 4, "timeout": 1800},
+    "quick": {"shards": 8, "timeout": 1800},
     "thorough": {"shards": 16, "timeout": 14400},
     # Only the thorough tier enumerates the property's whole bounded scope (2D grids 1..4, 3D grids 1..3,
     # <= 3 translations, offsets in [-(n+1), n+1]).  The quick tier enumerates a reduced 3D scope (stated in
